@@ -259,49 +259,62 @@ theorem removed_closed {s : State} (hI : Inv s) {e : Nat} (he : e < s.size) (hr 
 
 /-! ### one step -/
 
+/-- `PushBack` on a state satisfying the invariant: returns the new id, effect as specified. -/
+theorem stepR_push {s : State} (hI : Inv s) :
+    ∃ s', stepR s .push = (s', .pushed s.size) ∧ PushSpec s s' := by
+  obtain ⟨s', h1, h2⟩ := pushCore_spec hI
+  exact ⟨s', by simp only [stepR, hI.alive, h1]; rfl, h2⟩
+
+/-- `Remove(e)` of an element in the list: none of the three guards fires, no wait-group panic,
+    effect as specified. -/
+theorem stepR_remove_legal {s : State} (hI : Inv s) {e : Nat} (he' : e < s.size) (hr : s.rem e = false) :
+    ∃ s', stepR s (.remove e) = (s', .ok) ∧ RemoveSpec s e s' := by
+  have hal := hI.alive
+  have he : ¬ e ≥ s.size := by omega
+  obtain ⟨s', h1, h2⟩ := removeCore_spec hI he' hr
+  have hE := hI.elem e he'
+  have hh : s.head.isNone = false := by
+    rcases hh : s.head with _ | h
+    · have := hI.list.head_none hh e he'; rw [hr] at this; cases this
+    · rfl
+  have ht : s.tail.isNone = false := by
+    rcases hh : s.tail with _ | h
+    · have := hI.list.tail_none hh e he'; rw [hr] at this; cases this
+    · rfl
+  have hg1 : ((s.elems e).prev.isNone && s.head != some e) = false := by
+    rcases hp : (s.elems e).prev with _ | p
+    · have hall := hE.prev_none hp hr
+      rcases hhd : s.head with _ | h
+      · rw [hhd] at hh; cases hh
+      · obtain ⟨hhs, hhl, hall'⟩ := hI.list.head_some h hhd
+        have : h = e := by
+          rcases Nat.lt_trichotomy h e with h' | h' | h'
+          · have := hall h h'; rw [hhl] at this; cases this
+          · exact h'
+          · have := hall' e h'; rw [hr] at this; cases this
+        simp [this]
+    · simp
+  have hg2 : ((s.elems e).next.isNone && s.tail != some e) = false := by
+    have := eq_tail_of_next_none hI he' hr
+    rcases hn : (s.elems e).next with _ | n
+    · simp [this hn]
+    · simp
+  exact ⟨s', by simp [stepR, hal, he, hh, ht, hg1, hg2, h1], h2⟩
+
 theorem inv_step {s : State} (hI : Inv s) (op : Op) (hleg : Legal s op) : Inv (step s op) := by
   have hal := hI.alive
   cases op with
   | push =>
-    obtain ⟨s', h1, h2⟩ := pushCore_spec hI
-    simp only [step, stepR, hal, h1]
+    obtain ⟨s', h1, h2⟩ := stepR_push hI
+    simp only [step, h1]
     exact inv_push hI h2
   | remove e =>
-    simp only [step, stepR, hal]
     by_cases he : e ≥ s.size
-    · simp [he]; exact hI
+    · simp [step, stepR, hal, he]; exact hI
     · have he' : e < s.size := by omega
       have hr : s.rem e = false := hleg he'
-      obtain ⟨s', h1, h2⟩ := removeCore_spec hI he' hr
-      have hE := hI.elem e he'
-      -- none of the three guards fires
-      have hh : s.head.isNone = false := by
-        rcases hh : s.head with _ | h
-        · have := hI.list.head_none hh e he'; rw [hr] at this; cases this
-        · rfl
-      have ht : s.tail.isNone = false := by
-        rcases hh : s.tail with _ | h
-        · have := hI.list.tail_none hh e he'; rw [hr] at this; cases this
-        · rfl
-      have hg1 : ((s.elems e).prev.isNone && s.head != some e) = false := by
-        rcases hp : (s.elems e).prev with _ | p
-        · have hall := hE.prev_none hp hr
-          rcases hhd : s.head with _ | h
-          · rw [hhd] at hh; cases hh
-          · obtain ⟨hhs, hhl, hall'⟩ := hI.list.head_some h hhd
-            have : h = e := by
-              rcases Nat.lt_trichotomy h e with h' | h' | h'
-              · have := hall h h'; rw [hhl] at this; cases this
-              · exact h'
-              · have := hall' e h'; rw [hr] at this; cases this
-            simp [this]
-        · simp
-      have hg2 : ((s.elems e).next.isNone && s.tail != some e) = false := by
-        have := eq_tail_of_next_none hI he' hr
-        rcases hn : (s.elems e).next with _ | n
-        · simp [this hn]
-        · simp
-      simp [he, hh, ht, hg1, hg2, h1]
+      obtain ⟨s', h1, h2⟩ := stepR_remove_legal hI he' hr
+      simp only [step, h1]
       exact inv_remove hI he' hr h2
   | detachPrev e =>
     simp only [step, stepR, hal]
